@@ -196,6 +196,7 @@ pub fn gen_case(prop: &str, seed: u64, idx: u64) -> Case {
             case.engine.ping_timeout_ms = *r.pick(&[0u64, 1, 10_000, u64::MAX / 4]);
             case.engine.ping_timeout_max = r.chance(1, 10);
             case.sim.ack_timeout_choices = vec![None, Some(0), Some(1), Some(3_600_000), Some(u64::MAX / 4)];
+            case.sim.ack_timeout_max_pct = *r.pick(&[0u64, 0, 10]);
             case.sim.stop_permille = *r.pick(&[0u64, 20]);
             case.sim.connect_timeout_ms = *r.pick(&[30_000u64, 0, 1]);
             case.sim.mid_reset_permille = *r.pick(&[0u64, 5]);
